@@ -63,6 +63,10 @@ pub fn make_case(combo: u64, idx: u64, seed: u64) -> Case {
             c.password = if r.chance(1, 2) { String::new() } else { c.password };
         }
     }
+    // an account without a password is an account like another: every mode means the same for it
+    if !hash && idx % 8 == 5 {
+        c.password = String::new();
+    }
     c.name = client::ascii_name(&mut r, 10);
     let selected = if c.nla && r.chance(3, 4) { 2 } else { 1 };
     let mut case = Case { cfg: c, selected, identity: *r.pick(&[0usize, 2, 3]), combo, nla_seed: r.next(), server: 0, flags: 0xE28A8235 };
